@@ -27,6 +27,27 @@ def check(ctx):
     # units keep their meaning in a session whose variables are named like them (also like PREFIXED spellings)
     import namespace_common
     namespace_common.run(ctx, "ns")
+    # ---- dimensions that differ in ONE exponent only, by one (… s^-1 against … s^-2, m against m^2, V against ohm, Wb against H, Hz
+    # against s^-2): as different as any two dimensions — every + - comparison and `to` between them is rejected, in both orders
+    R = ctx.real
+    near = [("3 V", "2 ohm"), ("3 Wb", "2 H"), ("3 Hz", "2 s^-2"), ("3 m|s", "2 m|s^2"), ("1 W", "1 J"), ("1 N", "1 Pa m"), ("1 C", "1 A"), ("1 m^-1", "1 m^-2"),
+            ("1 kg^-1", "1 kg^-2"), ("1 K^-1", "1 K^-2"), ("1 A^-1 s", "1 A^-2 s"), ("1 usd^-1", "1 usd^-2"), ("1 m^-2", "1 m^-3"), ("1 s^-1", "1"), ("1 m", "1 m^2"),
+            ("1 mol^-1", "1 mol^-2"), ("1 cd^-1 m", "1 cd^-2 m"), ("2 J|kg K", "2 J|kg K^2"), ("5 eur|h", "5 eur|h^2"), ("1 m^2|s", "1 m^2|s^2")]
+    for a, b in near:
+        for x, y in ((a, b), (b, a)):
+            for op in ("+", "-", "<", "<=", "==", "!=", ">", ">="):
+                text = "(%s) %s (%s)" % (x, op, y)
+                k, v = R.value(text)
+                ctx.count("near-dim:" + text, bucket="dimensions one exponent apart")
+                if k == "ok":
+                    ctx.violation("qty-dim:" + text, text, "an error (different dimensions)", repr(v)[:120], "execute(%r)" % text)
+            unit_y = y.split(" ", 1)[1] if " " in y else None
+            if unit_y:
+                text = "(%s) to %s" % (x, unit_y)
+                k, v = R.value(text)
+                ctx.count("near-dim:" + text, bucket="dimensions one exponent apart")
+                if k == "ok":
+                    ctx.violation("qty-dim:" + text, text, "an error (conversion into another dimension)", repr(v)[:120], "execute(%r)" % text)
     # ---- chains of two comparisons: if ANY link compares operands of different dimension there is no value — whichever link a
     # lazy evaluation would look at first, and whether that link is true or false
     import itertools
